@@ -8,6 +8,8 @@ import (
 	"fmt"
 	"sync"
 
+	"github.com/efficientgo/core/errors"
+
 	"github.com/thanos-community/promql-engine/execution/model"
 
 	"github.com/prometheus/prometheus/model/labels"
@@ -70,6 +72,13 @@ func (c *concurrencyOperator) Next(ctx context.Context) ([]model.StepVector, err
 
 func (c *concurrencyOperator) pull(ctx context.Context) {
 	defer close(c.buffer)
+	// A panic on this goroutine (e.g. inside a storage callback) would take down the
+	// whole process: hand it to the consumer as the error of this operator instead.
+	defer func() {
+		if r := recover(); r != nil {
+			c.buffer <- maybeStepVector{err: panicToError(r)}
+		}
+	}()
 
 	for {
 		select {
@@ -94,4 +103,11 @@ func (c *concurrencyOperator) drainBufferOnCancel(ctx context.Context) {
 	<-ctx.Done()
 	for range c.buffer {
 	}
+}
+
+func panicToError(r any) error {
+	if err, ok := r.(error); ok {
+		return errors.Wrap(err, "unexpected error")
+	}
+	return errors.Newf("unexpected error: %v", r)
 }
